@@ -35,6 +35,35 @@ def array_text(rng, ty, name, rows, cols, shape, params=(), ragged=None):
     return "%s array %s%s =\n%s\n" % (ty, name, sh, "\n".join(lines))
 
 
+def int_from_float_cases(rng, quick):
+    """int scalars initialised with a non-integer float.  The model leaves this conversion unspecified (the property's quantifier
+    asks for type-compatible initialisers), so this is an implementation-level predicate, pinned to the conversion the declared
+    type map performs: the int type's own conversion of the float value, i.e. truncation towards zero, whatever the magnitude
+    and however close to the next integer the value lies.  The value is then used as argument and as mode."""
+    lits = ["2.7", "-2.7", "0.999999", "2.9999999999999996", "28.999999999999996", "100000.75", "-100000.75", "123456.5", "99999.99999",
+            "5e4 + 0.6", "0.29*100", "0.1*30", "0.57*100", "1.1*1.1*100", "4.35*100", "7.000000001", "-0.5", "1e6 + 0.999", "33.5"]
+    rng.shuffle(lits)
+    for lit in lits[: (8 if quick else len(lits))]:
+        text = HDR + "int v = %s\nfloat w = %s\nOp(v, w, a=v, l=[v, 1]) | 0\nfor int i in 0:2\n    Op(v + i) | i\n" % (lit, lit)
+
+        def pred(impl, text=text, lit=lit):
+            try:
+                p = impl.loads(text)
+            except Exception as e:  # noqa: BLE001
+                return None           # refusing the declaration is within the property
+            w = p.variables.get("w")
+            try:
+                want = int(float(w))
+            except Exception:  # noqa: BLE001
+                return None
+            v = p.variables.get("v")
+            got = [v, p.operations[0]["args"][0], p.operations[0]["kwargs"]["a"], p.operations[0]["kwargs"]["l"][0], p.operations[2]["args"][0] - 1]
+            if any((not hasattr(g, "__index__")) or int(g) != want for g in got):
+                return "int v = %s (float value %r): the variable and its uses hold %r, the int conversion of the value is %d" % (lit, w, got, want)
+            return None
+        yield {"tag": "int-from-float", "pred": pred, "key": text, "input": {"check": "pred", "tag": "int-from-float", "text": text}}
+
+
 def cases(rng, quick, gr):
     # scalars of every type with type-compatible initialisers
     inits = {"int": ["5", "-3", "2 + 3 * 4", "2 ** 10", "7 - 9"], "float": ["1.5", "3", "-2.5e-1", "pi", "sqrt(2)", "7 / 2", "2 ** -1"],
@@ -99,6 +128,16 @@ def cases(rng, quick, gr):
                 t = HDR + array_text(rng, ty, "A", r, c, shape)
                 idx = ", ".join("A[%d]" % k for k in range(r * c))
                 yield {"tag": "array-%s" % ty, "text": t + "Op(A, %s) | 0\n" % idx}
+    # array entries that are bare references to variables whose NAMES read like numbers (inf, nan, j, E, oo, ...), and such names
+    # left undeclared (refused, not read as numbers)
+    NUMLIKE = ["inf", "nan", "NaN", "Infinity", "infinity", "INF", "j", "J", "infj", "nanj", "e", "E", "I", "oo", "zoo", "N", "Inf", "NAN", "tau", "Pi"]
+    for k in range(10 if quick else 60):
+        a, b, c, d = rng.sample(NUMLIKE, 4)
+        decl = "float %s = 2.5\nfloat %s = 0.5\nint %s = 7\ncomplex %s = 3-1j\n" % (a, b, c, d)
+        yield {"tag": "array-number-like-names", "text": HDR + decl + "float array A[2, 2] =\n    %s, 1.5\n    %s, -%s\nint array B =\n    %s, 2, -%s\ncomplex array C =\n    1j, %s\n    2*%s, %s\nOp(A, B, C, A[0], A[2], B[0], C[1], C[3]) | 0\n" % (a, b, a, c, c, d, d, a)}
+        ty = rng.choice(["float", "complex", "int"])
+        yield {"tag": "array-number-like-undeclared", "text": HDR + "%s array A =\n    1, %s\nOp(A) | 0\n" % (ty, a)}
+    yield from int_from_float_cases(rng, quick)
     # wrong declared shape, ragged rows, transposed shape: must be refused
     for _ in range(40 if quick else 1500):
         r, c = rng.randint(1, 4), rng.randint(1, 4)
